@@ -252,18 +252,18 @@ for t, T, n, uw in TYPES[:2]:
     for d in list(range(1, 5)) + ["3a", "4a"]:
         ncoef = (int(str(d)[0]) + 1)
         reg("C18", H("c18_%s_poly%s_meaning" % (t, d), "c18::%s::poly%s_meaning" % (t, d), unwind=uwq, timeout=2400 if t == "p8" else 5400,
-                     tier="quick" if t == "p8" and d in (1, 2, 3) else "thorough", funcs=["%s::poly%s" % (T, d), "%s::mul" % T, "quire += / to_posit"], space_bits=n * (ncoef + 1),
+                     tier="quick" if t == "p8" and d in (1, 2) else "thorough", funcs=["%s::poly%s" % (T, d), "%s::mul" % T, "quire += / to_posit"], space_bits=n * (ncoef + 1),
                      bound="every x and every coefficient array; exact integer reference (sum of c[i]*pow_i in %d-fraction-bit fixed point, powers = reference-rounded products, one rounding%s)" % (12 if t == "p8" else 56, "; two stages as documented" if "a" in str(d) else "")))
     for d in list(range(1, 19)) + ["3a", "4a"]:
         deg = int(str(d)[0]) if "a" in str(d) else d
         if t == "p16" and deg > 8:
             continue
-        quick = (t == "p8" and deg <= 6) or (t == "p16" and deg <= 1)
+        quick = (t == "p8" and deg <= 5) or (t == "p16" and deg <= 1)
         reg("C18", H("c18_%s_poly%s_staging" % (t, d), "c18::%s::poly%s_staging" % (t, d), unwind=uwq, timeout=2400 if deg <= 8 else 5400, mem_gb=4 if deg <= 8 else 8,
                      tier="quick" if quick else "thorough", funcs=["%s::poly%s" % (T, d)], space_bits=n * (deg + 2),
                      bound="every x and every coefficient array; result == the documented multi-stage construction written with the crate's public *, quire += and to_posit"))
 for d in range(7, 19):
-    reg("C18", H("c18_p8_poly%d_xset" % d, "c18::p8::poly%d_xset" % d, unwind=34, timeout=1800, tier="quick", funcs=["P8E0::poly%d" % d], space_bits=8 * (d + 1) + 2,
+    reg("C18", H("c18_p8_poly%d_xset" % d, "c18::p8::poly%d_xset" % d, unwind=34, timeout=1800, tier="quick" if d <= 14 else "thorough", funcs=["P8E0::poly%d" % d], space_bits=8 * (d + 1) + 2,
                  bound="every coefficient array, x in {1, 2, -1.5, 0.75}; result == the documented multi-stage construction"))
 reg("C18",
     H("c18_p32_poly1_staging", "c18::p32::poly1_staging", unwind=66, timeout=3600, mem_gb=12, tier="thorough", funcs=["P32E2::poly1"], space_bits=96, bound="every x and coefficient pair"),
